@@ -95,6 +95,28 @@ namespace CDNS {
         explicit BlockTable() {}
 
         /**
+         * @brief Copy constructor. The keys in the index have to reference the items of this table.
+         */
+        BlockTable(const BlockTable& copy) : items_(copy.items_)
+        {
+            rebuild_indexes();
+        }
+
+        /**
+         * @brief Assignment operator. The keys in the index have to reference the items of this table.
+         */
+        BlockTable& operator=(const BlockTable& rhs)
+        {
+            if ( this != &rhs )
+            {
+                indexes_.clear();
+                items_ = rhs.items_;
+                rebuild_indexes();
+            }
+            return *this;
+        }
+
+        /**
          * @brief Find if a key value is in the list
          * 
          * @param key the key value to search for.
@@ -226,6 +248,16 @@ namespace CDNS {
             res -= 1;
             indexes_[KeyRef<K>(items_.back().key())] = res;
             return res;
+        }
+
+        /**
+         * @brief Build the index again so that its keys reference the items stored in this table.
+         */
+        void rebuild_indexes()
+        {
+            indexes_.clear();
+            for ( CDNS::index_t i = 0; i < items_.size(); i++ )
+                indexes_[KeyRef<K>(items_[i].key())] = i;
         }
 
         std::deque<T> items_;
